@@ -86,6 +86,13 @@ func c03Chain(k int, special int, specialPos int, tier int, reparse bool) {
 		case special == 1 && specialPos == i: // negated operand
 			sb.WriteString("-" + n)
 			xs = append(xs, &BinaryExpr{Op: MUL, LHS: &IntegerLiteral{Val: -1}, RHS: &VarRef{Val: n}})
+		case special == 4 && specialPos == i: // negated call
+			sb.WriteString("-f(" + n + ")")
+			xs = append(xs, &BinaryExpr{Op: MUL, LHS: &IntegerLiteral{Val: -1}, RHS: &Call{Name: "f", Args: []Expr{&VarRef{Val: n}}}})
+		case special == 5 && specialPos == i: // negated parenthesised sub-chain
+			ph, t := newOp(false)
+			sb.WriteString("-(" + n + " " + ph + " z)")
+			xs = append(xs, &BinaryExpr{Op: MUL, LHS: &IntegerLiteral{Val: -1}, RHS: &ParenExpr{Expr: &BinaryExpr{Op: t, LHS: &VarRef{Val: n}, RHS: &VarRef{Val: "z"}}}})
 		case special == 2 && specialPos == i: // parenthesised sub-chain with its own symbolic operator
 			ph, t := newOp(false)
 			sb.WriteString("(" + n + " " + ph + " z)")
@@ -132,7 +139,7 @@ func vfH_C03_chain(tier int) {
 		maxK = 5
 	}
 	k := 2 + vfChoice(maxK-1)
-	special := vfChoice(4) // 0 plain, 1 negated operand, 2 parenthesised sub-chain, 3 regex operator
+	special := vfChoice(6) // 0 plain, 1 negated operand, 2 parenthesised sub-chain, 3 regex operator, 4 negated call, 5 negated parenthesised sub-chain
 	pos := 0
 	if special != 0 {
 		if special == 3 {
